@@ -1,6 +1,7 @@
 package main
 
 import (
+	"path/filepath"
 	"go/ast"
 	"go/constant"
 	"go/token"
@@ -29,6 +30,8 @@ func runC07(p *Program, r *Report) {
 	r.Rule("R07.5", "E4", 6, "permission discipline: every file/directory creation in the two keystores uses the 0600/0700 constants (public key files 0644)")
 	ruleR075(p, r)
 	r.Note("R07.2 (owner/purpose context on every key-encryption call) is decided as R02.4 in property C02; its obligations are not duplicated here")
+	r.Rule("R07.8", "E2", 1, "a ring's signature is bound to its whole location: the context under which a v2 key ring is signed and verified is built from the ring's full path, which reaches the context through conversions, append/concatenation and the keystore's own context wrapper only - no base name, directory part, slice or other narrowing (two rings whose paths differ anywhere must not share a signature context, or a ring copied to another client's place verifies there)")
+	ruleR078(p, r)
 }
 
 func isKeyEncryptCallee(co *types.Func) bool {
@@ -484,6 +487,7 @@ func ruleR074(p *Program, r *Report) {
 	effective := ""
 	vacuous := false
 	testedOther := false
+	prefixOnly := false
 	for _, cs := range callsIn(fn) {
 		if cs.Callee == nil {
 			continue
@@ -529,10 +533,26 @@ func ruleR074(p *Program, r *Report) {
 		case "path/filepath.IsLocal":
 			effective = "filepath.IsLocal"
 		case "strings.HasPrefix":
+			usesRoot, boundary := false, false
 			for v := range backClosure(cs.Instr.Common().Args[1]) {
 				if _, f, ok := fieldOfLoad(v); ok && f == "root" {
-					effective = "HasPrefix(full, root…)"
+					usesRoot = true
 				}
+				// the prefix must end at a path boundary: root + separator
+				if c, ok := v.(*ssa.Const); ok && c.Value != nil {
+					if c.Value.Kind() == constant.String {
+						if sv := constant.StringVal(c.Value); strings.HasSuffix(sv, "/") || strings.HasSuffix(sv, string(filepath.Separator)) {
+							boundary = true
+						}
+					} else if k, isK := intConst(c); isK && k == int64(filepath.Separator) {
+						boundary = true // string(filepath.Separator)
+					}
+				}
+			}
+			if usesRoot && boundary {
+				effective = "HasPrefix(full, root + separator)"
+			} else if usesRoot {
+				prefixOnly = true
 			}
 		case "path/filepath.Clean":
 			// x != Clean(x) where x is a Join result
@@ -552,6 +572,9 @@ func ruleR074(p *Program, r *Report) {
 		}
 	}
 	r.Check(effective != "" && errReturns > 0 && !testedOther, "R07.4", fnName(fn), "containment predicate", p.Pos(fn.Pos()), effective, func() string {
+		if prefixOnly && effective == "" {
+			return "containment is decided by a plain string prefix of the root, which has no path boundary: a path that climbs into a sibling directory whose name starts with the root's name (../keys-old/x under root keys) is accepted"
+		}
 		if testedOther {
 			return "the path returned on success is not the path whose containment was tested (it is transformed again after the test): a component that only becomes '..' through that transformation leaves the keystore root"
 		}
@@ -843,4 +866,68 @@ func reachesSuccessReturn(fn *ssa.Function, blk *ssa.BasicBlock, errv ssa.Value)
 		}
 	}
 	return false
+}
+
+func init() {
+	mut("C07", "root containment decided by a plain string prefix", "keystore/v2/keystore/filesystem/backend/filesystem.go", "	rel, err := filepath.Rel(b.root, fullPath)\n	if err != nil || rel == \"..\" || strings.HasPrefix(rel, \"..\"+string(filepath.Separator)) {", "	if !strings.HasPrefix(fullPath, filepath.Clean(b.root)) {", "R07.4", "containment predicate")
+}
+
+// ---- R07.8
+func ruleR078(p *Program, r *Report) {
+	fn := p.Func("keystore/v2/keystore/filesystem.(*KeyStore).keyRingSignatureContext")
+	if fn == nil || fn.Blocks == nil {
+		r.Anchor("R07.8", "KeyStore.keyRingSignatureContext")
+		return
+	}
+	path := paramByName(fn, "path")
+	if path == nil {
+		r.Anchor("R07.8", "keyRingSignatureContext parameter path")
+		return
+	}
+	bad, reach := "", false
+	for _, ret := range returnsOf(fn) {
+		cl := backClosure(retValue(ret, 0))
+		if cl[path] {
+			reach = true
+		}
+		for v := range cl {
+			switch x := v.(type) {
+			case *ssa.Call:
+				if _, isB := x.Call.Value.(*ssa.Builtin); isB {
+					continue // append, len, copy
+				}
+				through := false
+				for _, a := range x.Common().Args {
+					if backClosure(a)[path] {
+						through = true
+					}
+				}
+				if !through {
+					continue
+				}
+				if sc := x.Common().StaticCallee(); sc != nil && sc.Name() == "keyStoreContext" {
+					continue // the store-wide prefix, applied to the whole context
+				}
+				full := "an indirect call"
+				if co := calleeOfCommon(x.Common()); co != nil && co.Pkg() != nil {
+					full = co.Pkg().Path() + "." + co.Name()
+				}
+				bad = "the path passes through " + full
+			case *ssa.Slice:
+				if backClosure(x.X)[path] && (x.Low != nil || x.High != nil) {
+					if _, isAlloc := x.X.(*ssa.Alloc); !isAlloc { // append's own varargs array
+						bad = "the path is cut"
+					}
+				}
+			}
+		}
+	}
+	if !reach {
+		bad = "the context does not depend on the ring's path"
+	}
+	r.Check(bad == "", "R07.8", fnName(fn), "signature context covers the whole ring path", p.Pos(fn.Pos()), "prefix + whole path, wrapped by keyStoreContext", bad+": rings that differ only in the dropped part share one signature context - a ring copied over another client's ring of the same kind verifies and is loaded as that client's")
+}
+
+func init() {
+	mut("C07", "ring signature context built from the last path component only", "keystore/v2/keystore/filesystem/keyStore.go", "	c = append(c, path...)\n	return s.keyStoreContext(c)", "	c = append(c, path[strings.LastIndex(path, \"/\")+1:]...)\n	return s.keyStoreContext(c)", "R07.8", "signature context")
 }
